@@ -908,6 +908,433 @@ theorem reader_noninterference_rev (c : Cfg) (r : Nat) (hr : r < c.n) : ∀ h : 
       | none => exact ih
       | some x => simp only [outsFor_cons_other r r' x _ he]; exact ih
 
+/-! ## The same clauses for histories in chronological order (`srun`) -/
+
+def isCollectBy (r : Nat) : SOp → Bool
+  | .collect r' _ => r' == r
+  | .add _ _ => false
+
+/-- reader `r` does not collect in `l` -/
+def NoCollectBy (r : Nat) (l : List SOp) : Prop := ∀ op ∈ l, isCollectBy r op = false
+
+theorem recorded_append (l₁ l₂ : List SOp) (a : Nat) : recorded (l₁ ++ l₂) a = recorded l₁ a + recorded l₂ a := by
+  induction l₁ with
+  | nil => simp [recorded]
+  | cons op t ih => cases op <;> simp only [List.cons_append, recorded, ih] <;> omega
+
+theorem recorded_reverse (l : List SOp) (a : Nat) : recorded l.reverse a = recorded l a := by
+  induction l with
+  | nil => rfl
+  | cons op t ih =>
+    rw [List.reverse_cons, recorded_append, ih]
+    cases op <;> simp [recorded] <;> omega
+
+theorem recSince_prefix (r : Nat) (rest : List SOp) (t : Nat) (a : Nat) :
+    ∀ l : List SOp, NoCollectBy r l → recSince r (l ++ .collect r t :: rest) a = recorded l a
+  | [], _ => by simp [recSince, recorded]
+  | .add a' v :: l, h => by
+    simp only [List.cons_append, recSince, recorded]
+    rw [recSince_prefix r rest t a l (fun op hm => h op (List.mem_cons_of_mem _ hm))]
+  | .collect r' t' :: l, h => by
+    have h1 := h (.collect r' t') (List.mem_cons_self ..)
+    have hne : r' ≠ r := by simpa [isCollectBy] using h1
+    simp only [List.cons_append, recSince, recorded, hne, if_false]
+    exact recSince_prefix r rest t a l (fun op hm => h op (List.mem_cons_of_mem _ hm))
+
+theorem recSince_all (r : Nat) (a : Nat) : ∀ l : List SOp, NoCollectBy r l → recSince r l a = recorded l a
+  | [], _ => rfl
+  | .add a' v :: l, h => by
+    simp only [recSince, recorded]
+    rw [recSince_all r a l (fun op hm => h op (List.mem_cons_of_mem _ hm))]
+  | .collect r' t' :: l, h => by
+    have h1 := h (.collect r' t') (List.mem_cons_self ..)
+    have hne : r' ≠ r := by simpa [isCollectBy] using h1
+    simp only [recSince, recorded, hne, if_false]
+    exact recSince_all r a l (fun op hm => h op (List.mem_cons_of_mem _ hm))
+
+theorem noCollectBy_reverse {r : Nat} {l : List SOp} (h : NoCollectBy r l) : NoCollectBy r l.reverse :=
+  fun op hm => h op (List.mem_reverse.mp hm)
+
+/-- **interval_exact**: in the chronological history `h₁, collect r, h₂, collect r` where `r` does not collect in
+    `h₂`, the point `r` receives for `a` at the end is exactly the Σ of what was recorded for `a` in `h₂` — each
+    measurement falls in exactly one collection interval of `r`, whatever the other readers do in `h₂`. -/
+theorem interval_exact (c : Cfg) (h₁ h₂ : List SOp) (r t₁ t₂ : Nat) (hr : r < c.n) (hd : c.temp r = .delta)
+    (hno : NoCollectBy r h₂) (a : Nat) :
+    valAt (pointsOf (collect c (srun c (h₁ ++ .collect r t₁ :: h₂)).1 r t₂).2) a = recorded h₂ a := by
+  unfold srun
+  rw [List.reverse_append, List.reverse_cons, List.append_assoc, List.singleton_append,
+    interval_exact_rev c _ r t₂ hr hd a, recSince_prefix r _ t₁ a _ (noCollectBy_reverse hno), recorded_reverse]
+
+/-- the first interval starts with the history (SDK start) -/
+theorem first_interval_exact (c : Cfg) (h : List SOp) (r ts : Nat) (hr : r < c.n) (hd : c.temp r = .delta)
+    (hno : NoCollectBy r h) (a : Nat) :
+    valAt (pointsOf (collect c (srun c h).1 r ts).2) a = recorded h a := by
+  unfold srun
+  rw [interval_exact_rev c _ r ts hr hd a, recSince_all r a _ (noCollectBy_reverse hno), recorded_reverse]
+
+/-- **delta_conservation** (chronological) -/
+theorem delta_conservation (c : Cfg) (h : List SOp) (r ts : Nat) (hr : r < c.n) (hd : c.temp r = .delta) (a : Nat) :
+    delivered r (srun c h).2 a + valAt (pointsOf (collect c (srun c h).1 r ts).2) a = recorded h a := by
+  unfold srun; rw [delta_conservation_rev c _ r ts hr hd a, recorded_reverse]
+
+/-- **cumulative_running_total** (chronological) -/
+theorem cumulative_running_total (c : Cfg) (h : List SOp) (r ts : Nat) (hr : r < c.n) (hc : c.temp r = .cumulative)
+    (a : Nat) : valAt (pointsOf (collect c (srun c h).1 r ts).2) a = recorded h a := by
+  unfold srun; rw [cumulative_running_total_rev c _ r ts hr hc a, recorded_reverse]
+
+theorem withoutOthers_reverse (r : Nat) (h : List SOp) : withoutOthers r h.reverse = (withoutOthers r h).reverse := by
+  simp [withoutOthers, List.filter_reverse]
+
+/-- **reader_noninterference** (chronological): `outputs h r = outputs (h without other readers' collects) r` -/
+theorem reader_noninterference (c : Cfg) (h : List SOp) (r : Nat) (hr : r < c.n) :
+    SameSeq (outsFor r (srun c h).2) (outsFor r (srun c (withoutOthers r h)).2) := by
+  unfold srun; rw [← withoutOthers_reverse]; exact reader_noninterference_rev c r hr _
+
+/-- **delta_intervals_abut** (chronological; the output log lists the most recent `MetricData` first) -/
+theorem delta_intervals_abut (c : Cfg) (h : List SOp) (r : Nat) (hr : r < c.n) (hd : c.temp r = .delta) :
+    Abut (outsFor r (srun c h).2) := delta_intervals_abut_rev c _ r hr hd
+
+/-- **cumulative_starts_at_sdk_start** (chronological) -/
+theorem cumulative_starts_at_sdk_start (c : Cfg) (h : List SOp) (r : Nat) (md : MetricData)
+    (hc : c.temp r = .cumulative) (hmem : (r, md) ∈ (srun c h).2) : md.startTs = 0 ∧ md.temporality = .cumulative :=
+  cumulative_starts_at_sdk_start_rev c _ r md hc hmem
+
+/-! ## Measurements recorded concurrently with collections: every interleaving of add / swap / build -/
+
+/-- Σ of everything recorded for `a` in a schedule -/
+def recordedS : List Step → Nat → Int
+  | [], _ => 0
+  | .add a' v :: o, a => (if a' = a then v else 0) + recordedS o a
+  | .swap _ _ _ :: o, a => recordedS o a
+  | .build _ :: o, a => recordedS o a
+
+/-- Σ of what collector threads hold between their swap and their build -/
+def flightSum : List Flight → Nat → Int
+  | [], _ => 0
+  | f :: t, a => valAt f.δ a + flightSum t a
+
+theorem flightSum_take (tid : Nat) (a : Nat) : ∀ (l : List Flight) (f : Flight) (rest : List Flight),
+    takeFlight tid l = some (f, rest) → flightSum l a = valAt f.δ a + flightSum rest a
+  | [], _, _, h => by simp [takeFlight] at h
+  | g :: t, f, rest, h => by
+    unfold takeFlight at h
+    by_cases hg : g.tid = tid
+    · simp only [hg, if_true, Option.some.injEq, Prod.mk.injEq] at h
+      obtain ⟨rfl, rfl⟩ := h; rfl
+    · simp only [hg, if_false] at h
+      cases ht : takeFlight tid t with
+      | none => rw [ht] at h; simp at h
+      | some p =>
+        rw [ht] at h; simp only [Option.map_some, Option.some.injEq, Prod.mk.injEq] at h
+        obtain ⟨rfl, rfl⟩ := h
+        have := flightSum_take tid a t p.1 p.2 (by rw [ht])
+        simp only [flightSum, this]; omega
+
+theorem takeFlight_valid (c : Cfg) : ∀ (sch : List Step) (tid : Nat) (f : Flight) (rest : List Flight),
+    takeFlight tid (crunRev c sch).inflight = some (f, rest) → f.r < c.n := by
+  suffices h : ∀ (sch : List Step) (f : Flight), f ∈ (crunRev c sch).inflight → f.r < c.n by
+    intro sch tid f rest ht
+    apply h sch f
+    generalize (crunRev c sch).inflight = l at ht
+    induction l generalizing rest with
+    | nil => simp [takeFlight] at ht
+    | cons g t ih =>
+      unfold takeFlight at ht
+      by_cases hg : g.tid = tid
+      · simp only [hg, if_true, Option.some.injEq, Prod.mk.injEq] at ht; simp [ht.1]
+      · simp only [hg, if_false] at ht
+        cases htt : takeFlight tid t with
+        | none => rw [htt] at ht; simp at ht
+        | some p =>
+          rw [htt] at ht; simp only [Option.map_some, Option.some.injEq, Prod.mk.injEq] at ht
+          exact List.mem_cons_of_mem _ (ih p.2 (by rw [htt, ← ht.1]))
+  have hsub : ∀ (tid : Nat) (l : List Flight) (f : Flight) (rest : List Flight),
+      takeFlight tid l = some (f, rest) → ∀ g ∈ rest, g ∈ l := by
+    intro tid l
+    induction l with
+    | nil => intro f rest ht; simp [takeFlight] at ht
+    | cons g t ih =>
+      intro f rest ht x hx
+      unfold takeFlight at ht
+      by_cases hg : g.tid = tid
+      · simp only [hg, if_true, Option.some.injEq, Prod.mk.injEq] at ht; rw [← ht.2] at hx; exact List.mem_cons_of_mem _ hx
+      · simp only [hg, if_false] at ht
+        cases htt : takeFlight tid t with
+        | none => rw [htt] at ht; simp at ht
+        | some p =>
+          rw [htt] at ht; simp only [Option.map_some, Option.some.injEq, Prod.mk.injEq] at ht
+          rw [← ht.2] at hx
+          rcases List.mem_cons.mp hx with rfl | hx
+          · exact List.mem_cons_self ..
+          · exact List.mem_cons_of_mem _ (ih p.1 p.2 (by rw [htt]) x hx)
+  intro sch
+  induction sch with
+  | nil => intro f hf; simp [crunRev, Conc.init] at hf
+  | cons st o ih =>
+    intro f hf
+    cases st with
+    | add a v => exact ih f hf
+    | swap tid r ts =>
+      simp only [crunRev, cstep] at hf
+      split at hf
+      · rename_i hc
+        rcases List.mem_cons.mp hf with rfl | hf
+        · exact hc.1
+        · exact ih f hf
+      · exact ih f hf
+    | build tid =>
+      simp only [crunRev, cstep] at hf
+      cases ht : takeFlight tid (crunRev c o).inflight with
+      | none => rw [ht] at hf; exact ih f hf
+      | some p => rw [ht] at hf; exact ih f (hsub tid _ p.1 p.2 ht f hf)
+
+/-- state-level facts about one `build` step on the general path, for the collecting reader and for the others -/
+theorem build_multi_other (c : Cfg) (s : Storage) (r' ts : Nat) (δ : DMap) (hv : r' < c.n)
+    (hf : fastPath c.n (c.temp r') = false) (r : Nat) (hr : r < c.n) (hne : r' ≠ r) (a : Nat) :
+    sumAt (stash (build c s r' ts δ).1.temporal r) a = sumAt (stash s.temporal r) a + valAt δ a ∧
+    lastMap (build c s r' ts δ).1.temporal r = lastMap s.temporal r ∧
+    ((build c s r' ts δ).1.temporal.last r).isSome = (s.temporal.last r).isSome ∧
+    (((s.temporal.unreported r).isSome = true → ((build c s r' ts δ).1.temporal.unreported r).isSome = true)) ∧
+    (build c s r' ts δ).1.cur = s.cur := by
+  have hne' : r ≠ r' := fun e => hne e.symm
+  have hsum := stashed_sum c.n s.temporal.unreported δ r hr a
+  have hsome := stashed_isSome c.n s.temporal.unreported δ r hr
+  unfold build
+  cases hu : stashed c.n s.temporal.unreported δ r' with
+  | none =>
+    rw [buildMetrics_multi_none _ _ _ _ _ _ hf hu]
+    simp only [stash, lastMap]
+    exact ⟨hsum, trivial, trivial, fun h => by rw [hsome, h]; rfl, trivial⟩
+  | some lst =>
+    rw [buildMetrics_multi_some _ _ _ _ _ _ lst hf hu]
+    simp only [stash, lastMap, setAt_other _ _ hne']
+    exact ⟨hsum, trivial, trivial, fun h => by rw [hsome, h]; rfl, trivial⟩
+
+/-- **The schedule invariant**, per reader: everything recorded is either already delivered (delta) / contained in
+    the last report (cumulative), or in the reader's stash, or in the current map, or in flight. -/
+structure SInv (c : Cfg) (sch : List Step) (s : Conc) (r : Nat) : Prop where
+  cons : ∀ a, (match c.temp r with
+          | .delta => delivered r s.outs a
+          | .cumulative => valAt (lastMap s.st.temporal r) a) +
+         (if fastPath c.n (c.temp r) then 0 else sumAt (stash s.st.temporal r) a) +
+         valAt s.st.cur a + flightSum s.inflight a = recordedS sch a
+  lastStash : (s.st.temporal.last r).isSome = true → (s.st.temporal.unreported r).isSome = true ∨ fastPath c.n (c.temp r) = true
+
+theorem sinv_init (c : Cfg) (r : Nat) : SInv c [] Conc.init r := by
+  constructor
+  · intro a; cases c.temp r <;> simp [Conc.init, Storage.init, TState.init, delivered, lastMap, stash, flightSum, recordedS]
+  · simp [Conc.init, Storage.init, TState.init]
+
+theorem sinv_build (c : Cfg) (sch : List Step) (s : Conc) (tid : Nat) (f : Flight) (rest : List Flight)
+    (ht : takeFlight tid s.inflight = some (f, rest)) (hv : f.r < c.n) (r : Nat) (hr : r < c.n)
+    (hi : SInv c sch s r) : SInv c (.build tid :: sch) (cstep c s (.build tid)) r := by
+  have hfl := fun a => flightSum_take tid a s.inflight f rest ht
+  simp only [cstep, ht]
+  cases hf : fastPath c.n (c.temp f.r) with
+  | true =>
+    have hn : c.n = 1 := ((fastPath_iff _ _).mp hf).1
+    have hrr : f.r = r := by omega
+    have hd : c.temp r = .delta := by rw [← hrr]; exact ((fastPath_iff _ _).mp hf).2
+    have hfr : fastPath c.n (c.temp r) = true := by rw [← hrr]; exact hf
+    unfold build
+    rw [buildMetrics_fast _ _ _ _ _ _ hf]
+    by_cases he : f.δ.isEmpty
+    · have hnil : f.δ = [] := List.isEmpty_iff.mp he
+      simp only [he, if_true]
+      constructor
+      · intro a; have h1 := hi.cons a; have h2 := hfl a
+        rw [hnil] at h2; simp only [valAt_nil] at h2
+        simp only [recordedS]; rw [← h1, h2]; simp
+      · intro _; exact Or.inr hfr
+    · simp only [he, Bool.false_eq_true, if_false]
+      constructor
+      · intro a; have h1 := hi.cons a; have h2 := hfl a
+        have hfd : fastPath c.n Temporality.delta = true := by rw [← hd]; exact hfr
+        rw [hd] at h1 ⊢
+        simp only [hfd, if_true, recordedS] at h1 ⊢
+        simp only [delivered, hrr, if_true]; omega
+      · intro _; exact Or.inr hfr
+  | false =>
+    have hfr : fastPath c.n (c.temp r) = false := by rw [fastPath_same c hr hv]; exact hf
+    by_cases hne : f.r = r
+    · -- the collecting reader itself
+      subst hne
+      have hsum := stashed_sum c.n s.st.temporal.unreported f.δ f.r hr
+      have hsome := stashed_isSome c.n s.st.temporal.unreported f.δ f.r hr
+      unfold build
+      cases hu : stashed c.n s.st.temporal.unreported f.δ f.r with
+      | none =>
+        rw [buildMetrics_multi_none _ _ _ _ _ _ hf hu]
+        have hold : (s.st.temporal.unreported f.r).isSome = false := by
+          have := hsome; rw [hu] at this
+          cases hx : (s.st.temporal.unreported f.r).isSome with
+          | false => rfl
+          | true => rw [hx] at this; simp at this
+        constructor
+        · intro a; have h1 := hi.cons a; have h2 := hfl a; have h3 := hsum a
+          rw [hu] at h3; simp only [Option.getD_none, sumAt_nil] at h3
+          simp only [hfr, Bool.false_eq_true, if_false, recordedS, stash, hu, Option.getD_none, sumAt_nil, lastMap] at h1 ⊢
+          omega
+        · intro hl
+          simp only at hl
+          rcases hi.lastStash hl with h | h
+          · rw [hold] at h; simp at h
+          · rw [hfr] at h; simp at h
+      | some lst =>
+        rw [buildMetrics_multi_some _ _ _ _ _ _ lst hf hu]
+        have hl : ∀ a, sumAt lst a = sumAt (stash s.st.temporal f.r) a + valAt f.δ a := by
+          intro a; have := hsum a; rw [hu] at this; simpa [stash] using this
+        constructor
+        · intro a; have h1 := hi.cons a; have h2 := hfl a; have h3 := hl a
+          simp only [hfr, Bool.false_eq_true, if_false, recordedS, stash, setAt_same, Option.getD_some, sumAt_nil,
+            lastMap, Option.map_some] at h1 h3 ⊢
+          cases htmp : c.temp f.r with
+          | delta =>
+            rw [htmp] at h1
+            simp only [delivered, if_true, mergedFor_delta, valAt_mergeAll] at h1 ⊢
+            omega
+          | cumulative =>
+            rw [htmp] at h1
+            simp only [valAt_mergedFor_cum, lastMap] at h1 ⊢
+            omega
+        · intro _; left; simp
+    · -- another reader's collection: the delta goes to this reader's stash
+      have hne' : f.r ≠ r := hne
+      have hb := fun a => build_multi_other c s.st f.r f.ts f.δ hv hf r hr hne' a
+      constructor
+      · intro a
+        obtain ⟨b1, b2, _, _, b5⟩ := hb a
+        have h1 := hi.cons a; have h2 := hfl a
+        simp only [hfr, Bool.false_eq_true, if_false, recordedS] at h1 ⊢
+        rw [b1, b2, b5]
+        cases htmp : c.temp r with
+        | delta =>
+          rw [htmp] at h1; simp only at h1 ⊢
+          cases (build c s.st f.r f.ts f.δ).2 with
+          | none => simp only []; omega
+          | some md => simp only [delivered, hne', if_false]; omega
+        | cumulative => rw [htmp] at h1; simp only at h1 ⊢; omega
+      · intro hl
+        obtain ⟨_, _, b3, b4, _⟩ := hb 0
+        rw [b3] at hl
+        rcases hi.lastStash hl with h | h
+        · exact Or.inl (b4 h)
+        · exact Or.inr h
+
+theorem sinv_step (c : Cfg) (sch : List Step) (st : Step) (r : Nat) (hr : r < c.n)
+    (hi : SInv c sch (crunRev c sch) r) : SInv c (st :: sch) (crunRev c (st :: sch)) r := by
+  cases st with
+  | add a' v =>
+    simp only [crunRev, cstep]
+    constructor
+    · intro a; have h1 := hi.cons a
+      simp only [record, valAt_addTo, recordedS]; omega
+    · exact hi.lastStash
+  | swap tid r' ts =>
+    simp only [crunRev, cstep]
+    split
+    · constructor
+      · intro a; have h1 := hi.cons a
+        simp only [swap, flightSum, recordedS, valAt_nil]; omega
+      · exact hi.lastStash
+    · exact ⟨fun a => by simpa [recordedS] using hi.cons a, hi.lastStash⟩
+  | build tid =>
+    cases ht : takeFlight tid (crunRev c sch).inflight with
+    | none =>
+      simp only [crunRev, cstep, ht]
+      exact ⟨fun a => by simpa [recordedS] using hi.cons a, hi.lastStash⟩
+    | some p =>
+      exact sinv_build c sch _ tid p.1 p.2 ht (takeFlight_valid c sch tid p.1 p.2 ht) r hr hi
+
+/-- the schedule invariant holds after every schedule -/
+theorem sinv_run (c : Cfg) (r : Nat) (hr : r < c.n) : ∀ sch : List Step, SInv c sch (crunRev c sch) r
+  | [] => sinv_init c r
+  | st :: sch => sinv_step c sch st r hr (sinv_run c r hr sch)
+
+/-- the value a delta reader's next collection would hand it, from the state alone -/
+theorem collect_value_delta_state (c : Cfg) (s : Storage) (r ts : Nat) (hr : r < c.n) (hd : c.temp r = .delta) (a : Nat) :
+    valAt (pointsOf (collect c s r ts).2) a =
+      (if fastPath c.n (c.temp r) then 0 else sumAt (stash s.temporal r) a) + valAt s.cur a := by
+  rw [collect_eq c s r ts hr]
+  cases hf : fastPath c.n (c.temp r) with
+  | true =>
+    rw [buildMetrics_fast _ _ _ _ _ _ hf]
+    by_cases he : s.cur.isEmpty
+    · have : s.cur = [] := List.isEmpty_iff.mp he
+      simp [he, pointsOf, this]
+    · simp [he, pointsOf]
+  | false =>
+    have hsum := stashed_sum c.n s.temporal.unreported s.cur r hr a
+    cases hu : stashed c.n s.temporal.unreported s.cur r with
+    | none =>
+      rw [buildMetrics_multi_none _ _ _ _ _ _ hf hu]
+      rw [hu] at hsum; simp only [Option.getD_none, sumAt_nil] at hsum
+      simp only [pointsOf, valAt_nil, Bool.false_eq_true, if_false, stash]; omega
+    | some lst =>
+      rw [buildMetrics_multi_some _ _ _ _ _ _ lst hf hu]
+      rw [hu] at hsum; simp only [Option.getD_some] at hsum
+      simp only [pointsOf, hd, mergedFor_delta, valAt_mergeAll, Bool.false_eq_true, if_false, stash]; omega
+
+/-- **sched_conservation** — measurements recorded concurrently with collections are conserved: after *every*
+    interleaving of `Add`s, swaps and builds by any number of collector threads, what a delta reader has received,
+    plus what its next collection would hand it, plus what collector threads still hold between swap and build,
+    is exactly everything recorded. -/
+theorem sched_conservation (c : Cfg) (sch : List Step) (r ts : Nat) (hr : r < c.n) (hd : c.temp r = .delta) (a : Nat) :
+    delivered r (crunRev c sch).outs a + valAt (pointsOf (collect c (crunRev c sch).st r ts).2) a
+      + flightSum (crunRev c sch).inflight a = recordedS sch a := by
+  have h := (sinv_run c r hr sch).cons a
+  rw [collect_value_delta_state c _ r ts hr hd a]
+  rw [hd] at h ⊢
+  simp only at h; omega
+
+/-- at quiescence (every swap has been followed by its build) nothing is in flight: delivered + pending = recorded -/
+theorem sched_conservation_quiescent (c : Cfg) (sch : List Step) (r ts : Nat) (hr : r < c.n) (hd : c.temp r = .delta)
+    (hq : (crunRev c sch).inflight = []) (a : Nat) :
+    delivered r (crunRev c sch).outs a + valAt (pointsOf (collect c (crunRev c sch).st r ts).2) a = recordedS sch a := by
+  have := sched_conservation c sch r ts hr hd a
+  rw [hq] at this; simpa [flightSum] using this
+
+/-- **sched_no_lost_update** — for a cumulative reader: after every interleaving, the total its next collection
+    reports plus what is still in flight is everything recorded (no update is lost or counted twice). -/
+theorem sched_no_lost_update (c : Cfg) (sch : List Step) (r ts : Nat) (hr : r < c.n) (hc : c.temp r = .cumulative) (a : Nat) :
+    valAt (pointsOf (collect c (crunRev c sch).st r ts).2) a + flightSum (crunRev c sch).inflight a = recordedS sch a := by
+  have hi := sinv_run c r hr sch
+  have h := hi.cons a
+  have hf : fastPath c.n (c.temp r) = false := by simp [fastPath, hc]
+  rw [hc] at h; simp only [← hc, hf, Bool.false_eq_true, if_false] at h
+  rw [collect_eq c _ r ts hr]
+  have hsum := stashed_sum c.n (crunRev c sch).st.temporal.unreported (crunRev c sch).st.cur r hr a
+  have hsome := stashed_isSome c.n (crunRev c sch).st.temporal.unreported (crunRev c sch).st.cur r hr
+  cases hu : stashed c.n (crunRev c sch).st.temporal.unreported (crunRev c sch).st.cur r with
+  | none =>
+    rw [buildMetrics_multi_none _ _ _ _ _ _ hf hu]
+    rw [hu] at hsum hsome; simp only [Option.getD_none, sumAt_nil] at hsum
+    have hnl : (crunRev c sch).st.temporal.last r = none := by
+      cases hl : (crunRev c sch).st.temporal.last r with
+      | none => rfl
+      | some p =>
+        rcases hi.lastStash (by rw [hl]; rfl) with h' | h'
+        · rw [h'] at hsome; simp at hsome
+        · rw [hf] at h'; simp at h'
+    simp only [lastMap, hnl, Option.map_none, Option.getD_none, valAt_nil, stash] at h
+    simp only [pointsOf, valAt_nil]; omega
+  | some lst =>
+    rw [buildMetrics_multi_some _ _ _ _ _ _ lst hf hu]
+    rw [hu] at hsum; simp only [Option.getD_some] at hsum
+    simp only [pointsOf, hc, valAt_mergedFor_cum, stash] at h ⊢; omega
+
+/-- a race: thread 7 swaps for reader 0, an `Add` arrives, thread 8 swaps and builds for reader 1, then thread 7
+    builds.  Nothing is lost: reader 0 (delta) has received 5, and 3 more are pending for it. -/
+example : let c : Cfg := ⟨[.delta, .cumulative]⟩
+    let s := crunRev c [.build 7, .build 8, .swap 8 1 2, .add 4 3, .swap 7 0 1, .add 4 5]
+    (delivered 0 s.outs 4, valAt (pointsOf (collect c s.st 0 9).2) 4, s.inflight.length) = (5, 3, 0) := by decide
+
+/-- the hypotheses of the reader theorems are satisfiable: configurations with a delta and a cumulative reader -/
+example : let c : Cfg := ⟨[.delta, .cumulative]⟩
+    (0 < c.n ∧ c.temp 0 = .delta) ∧ (1 < c.n ∧ c.temp 1 = .cumulative) := by decide
+example : NoCollectBy 0 [.add 1 2, .collect 1 5] := by
+  intro op h; simp at h; rcases h with rfl | rfl <;> rfl
+
 /-! ## The meter: every handle and every view stream counts -/
 
 /-- the handles created in a history (most recent operation first), in creation order -/
